@@ -223,7 +223,7 @@ fn check_dir_inner(vm: &dyn Vm, vol: RawVolume, snap: &Snap, path: &str, loc: Di
             }
         }
         // names of stale slots behind the end marker (same block, a later block, the last slot)
-        for txt in ["STALE.OLD", "STALE2.OLD", "STALE3.OLD", "STALE4.OLD"] {
+        for txt in ["STALE.OLD", "STALE2.OLD", "STALE3.OLD", "STALE4.OLD", "GHOST.BIN"] {
             let nm = name11(txt);
             if !listed_names.contains(&nm) {
                 bad |= lookup(Nm::Str(txt), nm, rep)?;
@@ -404,6 +404,21 @@ fn one_case(ctx: &Ctx, i: usize, rep: &mut Report) {
             f.put_slot(pd, r, Alloc::Seq);
         }
     }
+    // a FAT16 root whose entry count does not fill its last block: fill it to the very last slot and
+    // put a live-looking entry into the padding behind it - that is not part of the directory
+    let mut ghost: Option<(u32, usize)> = None;
+    if !f.g.fat32 && f.g.root_entries % 16 != 0 && rng.chance(1, 2) {
+        let mut k = 0;
+        while f.dirs[0].used < f.dir_capacity(0) {
+            f.add_file(0, &name11(&format!("ZF{}.E", k)), 0x20, &[], Alloc::Seq);
+            k += 1;
+        }
+        let idx = f.g.root_entries;
+        let (blk, off) = (f.g.root_start() + idx / 16, ((idx % 16) * 32) as usize);
+        let raw = f.raw_entry(&name11("GHOST.BIN"), 0x20, 77, 5);
+        f.img.write_bytes(blk, off, &raw);
+        ghost = Some((blk, off));
+    }
     let (img, g, _) = f.finish();
     let snap = match Snap::open(&img, g.part_slot) {
         Ok(s) => s,
@@ -488,6 +503,34 @@ fn one_case(ctx: &Ctx, i: usize, rep: &mut Report) {
                 rep.evaluations += 1;
                 rep.count("directories_rechecked_after_api_history", 1);
             }
+        }
+        // the full fixed-size root takes no further entry, and the padding behind it stays as it is
+        // (a deleted slot among the root entries is a free slot: then one more entry does fit)
+        let root_full = {
+            let (slots, _, _) = snap.dir_slots(snap.root_loc());
+            !slots.iter().any(|s| s.is_deleted() || s.is_end())
+        };
+        if let (false, Some((blk, off)), true) = (bad, ghost, root_full) {
+            let before = m.disk.image().read(blk);
+            let root = m.vm.open_root_dir(Fl::Raw, vol)?;
+            let r = m.vm.open_file(Fl::Raw, root, Nm::Str("ONEMORE.X"), Mode::ReadWriteCreate);
+            rep.count("creates_in_a_full_fat16_root", 1);
+            match r {
+                Err(e) if crate::vm::is_space_error(ek(&e)) => {}
+                other => {
+                    if let Ok(fh) = other.as_ref() {
+                        let _ = m.vm.close_file(Fl::Raw, *fh);
+                    }
+                    rep.violate(v("C06.seq", "open_file_in_dir", "entry created behind the last root slot", format!("the FAT16 root has {} entries, all in use, yet creating one more gave {:?}", g.root_entries, other.map(|_| "Ok").map_err(|e| ek(&e))), case()));
+                    bad = true;
+                }
+            }
+            let after = m.disk.image().read(blk);
+            if !bad && after[off..] != before[off..] {
+                rep.violate(v("C06.seq", "open_file_in_dir", "padding behind the root changed", format!("bytes behind the last of the {} root entries changed", g.root_entries), case()));
+                bad = true;
+            }
+            m.vm.close_dir(Fl::Raw, root)?;
         }
         m.vm.close_volume(Fl::Raw, vol)?;
         Ok(bad)
